@@ -36,13 +36,18 @@ end H2.Huffman
 namespace H2.Hpack
 open H2
 
-theorem readCont_lt (b : Bytes) (i acc v : Nat) (r : Bytes) (h : readCont b i acc = .ok v r) : r.length < b.length := by
-  fun_induction readCont b i acc with
-  | case1 => cases h
-  | case2 c cs i acc h1 => cases h
-  | case3 c cs i acc h1 acc' h2 => cases h
-  | case4 c cs i acc h1 acc' h2 h3 => injection h with _ h'; subst h'; simp
-  | case5 c cs i acc h1 acc' h2 h3 ih => have := ih h; simp; omega
+theorem readCont_lt (m : Nat) (b : Bytes) (i acc v : Nat) (r : Bytes) (h : readCont m b i acc = .ok v r) : r.length < b.length := by
+  induction b generalizing i acc with
+  | nil => simp [readCont] at h
+  | cons c cs ih =>
+    simp only [readCont] at h
+    split at h
+    · cases h
+    · split at h
+      · cases h
+      · split at h
+        · injection h with _ h'; subst h'; simp
+        · have := ih _ _ h; simp; omega
 
 theorem readInt_lt (n : Nat) (b : Bytes) (v : Nat) (r : Bytes) (h : readInt n b = .ok v r) : r.length < b.length := by
   unfold readInt at h
@@ -52,15 +57,8 @@ theorem readInt_lt (n : Nat) (b : Bytes) (v : Nat) (r : Bytes) (h : readInt n b 
     simp only at h
     split at h
     · cases h; simp
-    · split at h
-      · rename_i v' r' hc
-        split at h
-        · cases h
-        · cases h
-          have := readCont_lt _ _ _ _ _ hc
-          simp; omega
-      · rename_i e he
-        exact absurd h (he v r)
+    · have := readCont_lt _ _ _ _ _ _ h
+      simp; omega
 
 /-- a decoded string costs input: at least one octet, and at least 5 bits per output octet -/
 theorem readString_bound (b s r : Bytes) (h : readString b = .ok s r) :
